@@ -14,7 +14,7 @@ from pathlib import Path
 from harness.translate import HEADER, lean_str, write_if_changed
 
 NAME = "T2_valid_values"
-PROPS = ["C07", "C08"]
+PROPS = ["C07", "C08", "C10"]  # C10: GeffModel/MetaWrite.lean imports Gen.ValidValues
 
 ALIASES = {"SpaceUnits": "spaceUnits", "TimeUnits": "timeUnits", "AxisType": "axisTypes", "DTypes": "dtypes"}
 TUPLES = {"VALID_SPACE_UNITS": "SpaceUnits", "VALID_TIME_UNITS": "TimeUnits",
